@@ -35,7 +35,10 @@
       input residue held — any subset of its atoms, any extra atoms, any order — it ends with exactly
       the atoms of its final run-time reference, each once; a heavy atom never disappears without a
       report. `stages_exact_on_data` discharges the data hypotheses on this run's generated
-      topology with kernel-checked tables (Proofs/StagesTable.lean).
+      topology with kernel-checked tables (Proofs/StagesTable.lean);
+      `runtime_reference_is_named_definition` (230-combination kernel table) and
+      `stages_reach_named_definition`: the residue ends with exactly the atoms of the DEFINITION
+      IT IS NAMED AFTER (the link to C02's charge table).
   Not modelled: the neutral C-terminus variant of `Carboxylic` (CTR),
   the retry order of `repair_heavy` — covered by the oracle on real runs only (final names of
   every residue against the topology of its final state, input heavy atoms conserved unless
@@ -50,6 +53,7 @@ import P2P.Proofs.CarboxylicLemmas
 import P2P.Model.Stages
 import P2P.Proofs.StagesLemmas
 import P2P.Proofs.StagesData
+import P2P.Proofs.StagesBridge
 
 namespace P2P.Props.C03
 open P2P P2P.Atoms P2P.Proofs.Atoms
@@ -254,6 +258,33 @@ open P2P.Gen.Topology P2P.Proofs.StagesTable in
 /-- every late patch the run uses exists in the file -/
 theorem late_patches_exist : latePatchNames.all (fun n => patches.any (fun p => p.name = n)) = true :=
   late_patches_present
+
+open P2P.Proofs.Stages in
+/-- **The run-time reference is the named definition** (kernel table over this run's topology): for
+each of the 33 amino-acid definitions, each terminus variant (none, N, C, neutral N, neutral C) and
+each state patch that applies (230 combinations), the reference `Biomolecule.apply_patch` builds at
+run time has the same atoms as the definition `Definition.__init__` built at load time under the name
+the final state is looked up by (two different routines in the code) — and every state patch is one of
+the modelled late patches. -/
+theorem runtime_reference_is_named_definition : combos.all comboOK = true ∧ combos.length = 230 :=
+  ⟨combos_ok, combos_count⟩
+
+open P2P.Proofs.Stages in
+/-- **The residue ends with exactly the atoms of the definition it is named after**, for every
+input: any of the 230 combinations, any input name list (duplicate-free and free of pseudo-atom /
+OP1 / OP2 names once the terminus patches are applied), with or without `remove_hydrogens`: after
+PEPTIDE and the terminus patches, `repair_heavy`, the state patch and `add_hydrogens` the names are
+a permutation of the named definition's atoms. This is the fact C02's `charge_table` (stated per
+named definition) needs to speak about residues of a run. -/
+theorem stages_reach_named_definition (c : Combo) (hc : c ∈ combos) (r : Resolved)
+    (hr : resolve c = some r) (skip ok : Str → Bool) (s : Names) (strip : Bool)
+    (hs1 : (run skip ok r.base s (r.early.map Stage.patch)).names.Nodup)
+    (hs1p : ∀ n ∈ (run skip ok r.base s (r.early.map Stage.patch)).names, isPseudo n = false)
+    (hop : OP1 ∉ (run skip ok r.base s (r.early.map Stage.patch)).names ∧
+      OP2 ∉ (run skip ok r.base s (r.early.map Stage.patch)).names)
+    (hok : ∀ n, ok n = true) (hskip : ∀ n, skip n = false) :
+    (run skip ok r.base s (stagesOf r strip)).names.Perm (r.named.names.filter notPseudo) :=
+  stages_reach_named_definition_core c hc r hr skip ok s strip hs1 hs1p hop hok hskip
 
 open P2P.Gen.Topology in
 /-- non-vacuity on the generated topology: a C-terminal aspartate given with CA, N, an
